@@ -404,12 +404,71 @@ def run_history(ctx, kind, name, hist):
     return True, repr(key)
 
 
+ADDER_EXPECT = {("get",): ("value", "'inst'"), ("set", 5): ("TraitError",),
+                ("set", "v"): ("ok",), ("set", None): ("TraitError",)}
+
+
+def adder_cells(ctx, kind, name):
+    """A trait_added listener adds an instance trait for the very name whose
+    first access announced it: that access is already governed by the
+    instance trait (statement: "the instance trait of that name if one was
+    added")."""
+    for prior in ((), (("get", "zzq"),), (("set", 5),)):
+        for op, want in ADDER_EXPECT.items():
+            ctx.case({"kind": kind, "name": name, "adder": list(op),
+                      "prior": [list(x) for x in prior]})
+            ctx.ev()
+            ctx.tr()
+            side = Side(kind, name, twin=False)
+            o = side.b
+            ran = []
+
+            def adder(added):
+                if added == name and name not in o._instance_traits():
+                    ran.append(added)
+                    o.add_trait(name, Str("inst"))
+            for pr in prior:
+                # another instance / another name went first
+                try:
+                    if pr[0] == "get":
+                        getattr(o, pr[1], None)
+                    else:
+                        setattr(side.Base(), name, pr[1])
+                except Exception:
+                    pass
+            o.on_trait_change(adder, "trait_added")
+            try:
+                if op[0] == "get":
+                    v = getattr(o, name)
+                    out = ("value", repr(v))
+                else:
+                    setattr(o, name, op[1])
+                    out = ("ok",)
+            except AttributeError:
+                out = ("AttributeError",)
+            except TraitError:
+                out = ("TraitError",)
+            except Exception as e:
+                out = ("other", type(e).__name__)
+            if not ran:
+                continue
+            ctx.outcome("instance-trait-governed")
+            if out != want:
+                ctx.violation(
+                    "C13:added-in-listener:%s:%s:%s" % (kind, name, op[0]),
+                    "a trait_added listener added an instance Str trait for "
+                    "%r during the first access; %r then gave %r, the "
+                    "instance trait prescribes %r" % (name, op, out, want),
+                    kind=kind, name=name, history=[["adder"] + list(op)])
+
+
 def shards(tier):
     return [{"kind": k, "name": n} for k in KINDS for n in NAMES]
 
 
 def run_shard(ctx, shard, tier):
     kind, name = shard["kind"], shard["name"]
+    adder_cells(ctx, kind, name)
     evs = events()
     depth = 3 if tier == "quick" else 5
     frontier = [[]]
@@ -439,6 +498,11 @@ def replay(rec):
     from mc.ctx import Ctx
     ctx = Ctx("C13", None, "quick", 0)
     c = rec.get("case") or rec
+    if "adder" in c:
+        adder_cells(ctx, c["kind"], c["name"])
+        for v in ctx.violations.values():
+            print("  violation:", v["sig"], v["msg"])
+        return not ctx.violations
     hist = [tuple(e) for e in c["history"]]
     run_history(ctx, c["kind"], c["name"], hist)
     print(c["kind"], c["name"], hist)
